@@ -40,6 +40,8 @@ package vgirpc
 //@ func ReadUnaryResult
 //@   property C01
 //@   nopanic(index)
+//@   # the scan moves past a batch only if it is a zero-row log batch that is NOT an exception
+//@   loop 0 onrepeat [skiponlylogs] numRows(batch) <= 0 && isMeta && found && level != "EXCEPTION"
 //@   at call bytes.Clone assert [firstvalue] numRows(batch) > 0 && isBinary && len(indices) > 0
 //@   at call (*array.Binary).Value assert [row0] arg1 == 0
 //@   ensures [local_result_ret5] ok
